@@ -120,6 +120,7 @@ class DefRuntime:
         if m["name"] == "__repr__":
             def f(self: Any) -> Any:  # noqa
                 return "K()"
+        f._icv_own = getattr(self, "_cur_k", 0)      # the class statement that defines this function
         f.__name__ = m["name"]
         f.__qualname__ = m["name"]
         f.__doc__ = "doc of " + m["name"]
@@ -153,6 +154,7 @@ class DefRuntime:
         """Execute class statement k (1-based); returns "ok" or the exception class name."""
         ic = self.ic
         st = self.hist["cls"][k - 1]
+        self._cur_k = k
         try:
             if st.get("clone_of"):
                 # the class is re-created from the dictionary of an existing one, as dataclass(slots=True) does
@@ -283,7 +285,7 @@ class DefRuntime:
             kind, fn = self.member_fn(cls, name)
             if fn is None:
                 v["members"][name] = {"kind": "none", "pre": [], "snap": [], "post": [], "invw": False, "nchk": 0,
-                                      "nfor": 0}
+                                      "nfor": 0, "orig": 0}
                 continue
             chk = ic._checkers.find_checker(fn)
             pre = [self._ords(g) for g in chk.__preconditions__] if chk is not None else []
@@ -292,7 +294,8 @@ class DefRuntime:
             invw = ic._checkers._already_decorated_with_invariants(fn)
             facts = self.chain_facts(k, name)
             v["members"][name] = {"kind": kind, "pre": pre, "snap": snap, "post": post, "invw": bool(invw),
-                                  "nchk": facts["checkers"], "nfor": facts["foreign"]}
+                                  "nchk": facts["checkers"], "nfor": facts["foreign"],
+                                  "orig": getattr(fn, "_icv_own", -1)}
         return v
 
     def member_list_ids(self, k: int, name: str) -> List[int]:
@@ -360,10 +363,11 @@ def normalise_model_view(v: dict, names: List[str]) -> dict:
     for name in names:
         m = members.get(name)
         if not m:
-            mem[name] = {"kind": "none", "pre": [], "snap": [], "post": [], "invw": False, "nchk": 0, "nfor": 0}
+            mem[name] = {"kind": "none", "pre": [], "snap": [], "post": [], "invw": False, "nchk": 0, "nfor": 0, "orig": 0}
         else:
             mem[name] = {"kind": m["kind"], "pre": [list(g) for g in m["pre"]], "snap": list(m["snap"]),
-                         "post": list(m["post"]), "invw": bool(m["invw"]), "nchk": m["nchk"], "nfor": m["nfor"]}
+                         "post": list(m["post"]), "invw": bool(m["invw"]), "nchk": m["nchk"], "nfor": m["nfor"],
+                         "orig": m["orig"]}
     return {"inv": list(v["inv"]), "oncall": list(v["oncall"]), "onset": list(v["onset"]),
             "doc_oncall": list(v["oncall"]), "members": mem}
 
@@ -458,6 +462,8 @@ def _view_clause(ex: dict, act: dict, j: int, k: int) -> str:
             return "def.other_entity_changed"
         if em["kind"] != am["kind"]:
             return "def.member_kind"
+        if em["orig"] != am["orig"]:
+            return "def.resolution"       # the name resolves to the definition of another class
         if em["pre"] != am["pre"]:
             return "def.eff_pre_ne_ref"
         if em["post"] != am["post"]:
